@@ -47,9 +47,33 @@ def run(check):
   r_e = check.rule('R-C11-escape', 3, 'no input-caused exception escapes a receiver callback')
   r_i = check.rule('R-C11-isolation', 2, 'a malformed item cannot take the other items of its frame with it')
   r_c = check.rule('R-C11-no-close', 3, 'carbon code reachable from the callbacks never closes the connection')
+  r_n = check.rule('R-C11-coerced', 2, 'numbers taken from the wire reach the pipeline only through float()')
   for cls, m, kinds in ents:
     ef = Effects(cx)
+    if m.name == 'datagramReceived':
+      # Twisted never calls connectionMade() on a datagram protocol: what only that method sets is unset here
+      set_elsewhere, set_cm = set(), set()
+      for k in check.repo.mro(cls):
+        if isinstance(k, tuple):
+          continue
+        set_elsewhere |= set(k.attrs)
+        for mm in k.methods.values():
+          for x in ast.walk(mm.node):
+            if isinstance(x, ast.Attribute) and isinstance(x.ctx, ast.Store) and isinstance(x.value, ast.Name) and \
+               mm.params and x.value.id == mm.params[0]:
+              (set_cm if mm.name in ('connectionMade', 'connectionLost') else set_elsewhere).add(x.attr)
+        set_elsewhere |= set(k.methods)
+      ef.uninit_attrs = set_cm - set_elsewhere
     raised = ef.analyse(m, kinds)
+    for (f_, call_, ks_) in ef.dispatches:
+      dp = ks_[2] if len(ks_) > 2 else None
+      comps = list(dp[1:]) if isinstance(dp, tuple) and dp[0] == 'T' else [dp]
+      if len(comps) == 2 and all(c in ('F?', 'FF') for c in comps):
+        r_n.ok('%s.%s dispatches (float, float)' % (cls.name, m.name), f_.loc(call_))
+      else:
+        r_n.violate('%s.%s: number not converted' % (cls.name, m.name), f_, call_, 'the datapoint handed to metricReceived has '
+                    'components of kind %s: a number taken from the wire must go through float() (which also rejects what a float '
+                    'cannot hold - an int beyond 2**1024 would otherwise be accepted as a datapoint)' % (comps,))
     for k in sorted(ef.analysed):
       check.functions_analysed.add(k)
     label = '%s.%s' % (cls.name, m.name)
@@ -85,6 +109,14 @@ def run(check):
       r_c.ok('%s: no loseConnection/abortConnection reachable' % label, m.loc())
   # ------------------------------------------------------------------ frames are decoded independently
   r_f = check.rule('R-C11-frame-local', 1, 'a frame is unpickled from a stream built afresh from that frame only')
+  rule_frame_local(check, cx, r_f)
+  if len(ents) < 3:
+    r_e.cannot_decide('expected the line, UDP and pickle receiver callbacks, found %d' % len(ents))
+
+
+
+def rule_frame_local(check, cx, rule):
+  """every frame gets an unpickler (input buffer and memo included) of its own (shared with C01)."""
   from ..rulelib import reaching_defs, value_assigned
   for sc in check.repo.module('carbon.util').classes.get('SafeUnpickler', []):
     loads = sc.methods.get('loads')
@@ -110,16 +142,21 @@ def run(check):
         return bool(vals) and len(vals) == len(rds) and all(isinstance(v, ast.AST) and fresh(v, d, depth + 1) for v, d in zip(vals, rds))
       return False
     if not ctors:
-      r_f.cannot_decide('SafeUnpickler.loads: construction of the unpickler not recognised')
+      reused = [c for c in ast.walk(loads.node) if isinstance(c, ast.Call) and isinstance(c.func, ast.Attribute) and c.func.attr == 'load'
+                and isinstance(c.func.value, (ast.Name, ast.Attribute)) and (dotted(c.func.value) or '').split('.')[0] == loads.params[0]]
+      if reused:
+        rule.violate('unpickler object outlives the frame', loads, reused[0], '`%s` unpickles with an object that exists before and '
+                     'after this call: its memo (and input buffer) carry over, so back-references in a later frame resolve to '
+                     'objects of earlier frames - datapoints arrive under another metric name or are dropped' % short(reused[0]))
+      else:
+        rule.cannot_decide('SafeUnpickler.loads: construction of the unpickler not recognised')
     for n, c in ctors:
       if fresh(c.args[0], n):
-        r_f.ok('SafeUnpickler.loads[%s] reads from a fresh StringIO(<frame>)' % (sc.guard or 'py3'), loads.loc(c))
+        rule.ok('SafeUnpickler.loads[%s] reads from a fresh StringIO(<frame>)' % (sc.guard or 'py3'), loads.loc(c))
       else:
-        r_f.violate('unpickler input shared between frames', loads, c, 'the unpickler reads from `%s`, which is not a buffer created '
+        rule.violate('unpickler input shared between frames', loads, c, 'the unpickler reads from `%s`, which is not a buffer created '
                     'from this frame alone: bytes of an earlier (longer) frame remain behind the current one, so a truncated frame '
                     'that must be skipped runs on into stale data and earlier datapoints are accepted again' % unparse(c.args[0]))
-  if len(ents) < 3:
-    r_e.cannot_decide('expected the line, UDP and pickle receiver callbacks, found %d' % len(ents))
 
 
 def _stmt(node):
